@@ -152,11 +152,37 @@ def run(tier, seed):
                         best = max(n.height for h in hist for n in h)
                         tmax = max(n.view.time for n in tg.nodes)
                         with simnet.Net(seed=rng.getrandbits(30), t0=tmax + 1000) as net:
-                            nodes = [net.add_node('n%d' % i, chaingen.impl_state_from(h)) for i, h in enumerate(hist)]
+                            # in every second schedule of a three-node topology two nodes share one address (different ports):
+                            # two machines behind one address, or two nodes on one machine
+                            shared = (nn == 3 and sched % 2 == 1)
+                            nodes = [net.add_node('n%d' % i, chaingen.impl_state_from(h),
+                                                  host=('10.0.7.7' if (shared and i >= 1) else None),
+                                                  port=(2412 + i if (shared and i >= 1) else 2412))
+                                     for i, h in enumerate(hist)]
                             # the topology stays what it is: addresses learnt from peers lists cannot create extra links
                             net.allowed = set(frozenset((nodes[x].host, nodes[y].host)) for (x, y) in topo)
                             for (x, y) in topo:
                                 net.link(nodes[x], nodes[y])
+                            # a transaction that only the node(s) holding the best chain can validate yet (it spends the
+                            # reward of the best head) is broadcast BEFORE the others have caught up: they refuse it now ...
+                            # greetings only (network manager steps, no chain manager step: no block request goes out yet)
+                            for _g in range(3):
+                                for nd in nodes:
+                                    nd.activate()
+                                    nd.lp.network_manager.step(net.clock())
+                                net.run_until_quiet(max_events=2000, step_every=0, quiet_needed=0)
+                            tall_i = max(range(len(nodes)), key=lambda i: nodes[i].lp.chain_manager.coinstate.head().height)
+                            tall_head = [x for x in tg.nodes if x.id == bytes(nodes[tall_i].lp.chain_manager.coinstate.current_chain_hash)][0]
+                            early_tx = None
+                            cbt = tall_head.view.txs[0]
+                            if cbt.outputs and cbt.outputs[0][1] in keys.by_pk and cbt.outputs[0][0] > 0 and \
+                                    any(nd.lp.chain_manager.coinstate.head().height < best for nd in nodes):
+                                early_tx = chaingen.signed_tx(keys, tall_head.utxo, [(cbt.id, 0)], [(cbt.outputs[0][0], keys.pks[2])])
+                                nodes[tall_i].activate()
+                                if nodes[tall_i].lp.chain_manager.add_transaction_to_pool(early_tx):
+                                    nodes[tall_i].lp.network_manager.broadcast_transaction(early_tx)
+                                else:
+                                    early_tx = None
                             fired = net.run_until_quiet(max_events=60000, chunk=lambda rg: rg.choice([1, 7, 100, 1024, 1024]),
                                                         step_every=40, dt=13, quiet_needed=14)
                             rp = {'shape': shape, 'topology': topo, 'schedule': sched, 'heights': [max(n.height for n in h) for h in hist]}
@@ -181,9 +207,21 @@ def run(tier, seed):
                             # a relay goes to every active peer: count per (node, object) distinct relay rounds = sends / peers
                             # ---- transaction broadcast once heads are shared
                             heads_id = set(bytes(n.lp.chain_manager.coinstate.current_chain_hash) for n in nodes)
+                            if len(heads_id) == 1 and early_tx is not None and list(heads_id)[0] == tall_head.id:
+                                # ... and once all share the head, the same transaction announced again reaches every pool
+                                nodes[tall_i].activate()
+                                nodes[tall_i].lp.network_manager.broadcast_transaction(early_tx)
+                                net.run_until_quiet(max_events=20000, step_every=40, dt=13, quiet_needed=4)
+                                ck.count('transaction-announced-before-and-after-catch-up')
+                                for i, n in enumerate(nodes):
+                                    if early_tx not in n.lp.chain_manager.transaction_pool:
+                                        ck.violation('tx-not-propagated', 'a valid transaction that node %d had to refuse while it '
+                                                     'was still behind (it spends an output of a block it did not have yet) does '
+                                                     'not reach its pool when it is announced again after the nodes share a head' % i, rp)
+                                        break
                             if len(heads_id) == 1:
                                 hd = [x for x in tg.nodes if x.id == list(heads_id)[0]][0]
-                                av = sorted(tg.spendable(hd))
+                                av = sorted(x for x in tg.spendable(hd) if early_tx is None or x[0] != (cbt.id, 0))
                                 if av:
                                     tx = chaingen.signed_tx(keys, hd.utxo, [av[0][0]], [(av[0][1][0], keys.pks[1])])
                                     del sent_log[:]
